@@ -137,6 +137,55 @@ def design_models(rep, pid, t):
                       "multi-phase search over arbitrary sub-search answers: result = input or within max(schedule), contrast strictly higher")
 
 
+STRAT_CFG = ("SPECIFICATION TSpec\nCONSTANTS NC = 40\n NL = 3\n MaxIter1 = 10\n MaxIter2 = 15\n StrictCap = 50010\n StepCap = 30010\n"
+             " RelaxedCap = 150010\n DeTop = 99999999\nPOSTCONDITION KitPost\nCHECK_DEADLOCK FALSE\n")
+
+
+def refinement(rep, behaviours, cap=1500):
+    """Level B: each observed run (with its chain of search calls) must be a behaviour of Strat.tla (TrStrat.tla).
+    Reported as drift only - never a violation."""
+    runs = []
+    for b in behaviours:
+        c0 = b[0]
+        for e in b[1:]:
+            if not e.get("haveChain") or not e["css"] or e["raised"]:
+                continue
+            cols = [c0["text"]]
+
+            def idx(c):
+                if c not in cols:
+                    cols.append(c)
+                return cols.index(c)
+            chain = []
+            bad = False
+            for s in e["chain"]:
+                if not s["out"]:
+                    bad = True
+                    break
+                chain.append([idx(s["in"]), idx(s["out"])])
+            if bad or len(cols) > 38:
+                continue
+            res = idx(e["css"])
+            de = [[s_[0], s_[1], refs.de4(cols[s_[0]], cols[s_[1]])] for s_ in chain if s_[0] != s_[1]]
+            de += [[0, j, refs.de4(cols[0], cols[j])] for j in range(1, len(cols))]
+            runs.append({"mode": e["mode"], "vr": e["vr"], "large": c0["large"], "bg": c0["bg"], "cols": cols, "chain": chain, "de": de,
+                         "res": res, "ok": e["ok"]})
+    runs = runs[:cap]
+    if not runs:
+        return
+    # TrStrat takes one run per trace: Traces[tid] is the run record itself
+    agg = vlib.validate_traces("TrStrat", runs, cfg=STRAT_CFG, min_per_shard=60)
+    rep.states += agg["distinct"]
+    rep.transitions += agg["generated"]
+    drift = [b for b in agg["bad"] if any(x.startswith("D_") for x in b["incon"])]
+    rep.drift += len(drift)
+    rep.extra["refinement_runs_checked_against_Strat"] = len(runs)
+    rep.extra["refinement_runs_accepted"] = len(runs) - len(agg["bad"])
+    rep.extra["refinement_threshold_close_skipped"] = sum(1 for b in agg["bad"] if "I_ThresholdClose" in b["incon"])
+    for b in drift[:5]:
+        print(f"DRIFT module=Strat {b['incon']} run={json.dumps(runs[b['tid']])[:300]}")
+
+
 def run(pid, extra=None):
     t = vlib.tier()
     rnd = random.Random(vlib.seed() * 104729 + sum(map(ord, pid)))
@@ -178,6 +227,8 @@ def run(pid, extra=None):
     for b in behaviours[:3]:
         rep.sample({"behaviour": b[:3]})
     classify(rep, pid, specs, behaviours, agg)
+    if pid in ("C01", "C04", "C16"):
+        refinement(rep, behaviours, cap=500 if t == "quick" else 20000)
     if extra:
         extra(rep, t, rnd)
     return rep.finish()
